@@ -2,6 +2,7 @@ package pbar
 
 import (
 	"io"
+	"sync"
 
 	"github.com/vbauerster/mpb/v8"
 )
@@ -33,6 +34,7 @@ func NewNoopBar() Bar {
 }
 
 type bar struct {
+	mu    sync.Mutex
 	b     *mpb.Bar
 	c     *Container
 	total int64
@@ -49,12 +51,23 @@ func newBar(c *Container, total int64, name string, unit int) *bar {
 	}
 }
 
+// ensureInternalBar lazily creates the internal bar. Workers might increment
+// the same bar concurrently so creation must happen exactly once, otherwise
+// the extra bars are never completed and Container.Wait blocks forever.
 func (b *bar) ensureInternalBar() {
+	b.mu.Lock()
+	defer b.mu.Unlock()
 	if b.b != nil {
 		return
 	}
 	b.c.ensureProgress()
 	b.b = b.c.addBar(b.total, b.name, b.unit)
+}
+
+func (b *bar) internalBar() *mpb.Bar {
+	b.mu.Lock()
+	defer b.mu.Unlock()
+	return b.b
 }
 
 func (b *bar) Incr() {
@@ -74,22 +87,24 @@ func (b *bar) IncrBy(n int) {
 }
 
 func (b *bar) Done() {
-	if b.b == nil {
+	ib := b.internalBar()
+	if ib == nil {
 		return
 	}
-	if b.b.IsRunning() {
-		b.b.SetTotal(-1, true)
-		b.b.Wait()
+	if ib.IsRunning() {
+		ib.SetTotal(-1, true)
+		ib.Wait()
 	}
 }
 
 func (b *bar) Abort() {
-	if b.b == nil {
+	ib := b.internalBar()
+	if ib == nil {
 		return
 	}
-	if b.b.IsRunning() {
-		b.b.Abort(true)
-		b.b.Wait()
+	if ib.IsRunning() {
+		ib.Abort(true)
+		ib.Wait()
 	}
 }
 
